@@ -16,11 +16,11 @@ VHDL_ASSUME = [
 
 C05_MODULES = ["contracts.core_models", "contracts.c09_arith", "contracts.c09_bounded", "contracts.c05_convert", "contracts.c05_format_cast", "contracts.c05_setters", "contracts.c05_join", "contracts.c05_castsetter", "contracts.c13_array"]
 
-C13_MODULES = ["contracts.core_models", "contracts.c09_bounded", "contracts.c13_types", "contracts.c13_views", "contracts.c13_array", "contracts.c13_refspec", "contracts.c13_alias"]
+C13_MODULES = ["contracts.core_models", "contracts.c09_bounded", "contracts.c13_types", "contracts.c13_views", "contracts.c13_array", "contracts.c13_refspec", "contracts.c13_alias", "contracts.c09_tqparts"]
 
 C06_MODULES = C05_MODULES + ["contracts.c13_types", "contracts.c13_views", "contracts.c06_names", "contracts.c06_ports", "contracts.c06_stmts", "contracts.c06_literals", "contracts.c02_ops", "contracts.c06_sensitivity", "contracts.c03_refvisit", "contracts.c06_text", "contracts.c06_library", "contracts.c02_replace"]
 
-C02_MODULES = C05_MODULES + ["contracts.c13_types", "contracts.c13_views", "contracts.c02_ops", "contracts.c02_frontend", "contracts.c02_replace", "contracts.c02_assembler", "contracts.c03_lowering", "contracts.c13_refspec"]
+C02_MODULES = C05_MODULES + ["contracts.c13_types", "contracts.c13_views", "contracts.c02_ops", "contracts.c02_frontend", "contracts.c02_replace", "contracts.c02_assembler", "contracts.c03_lowering", "contracts.c13_refspec", "contracts.c09_tqparts"]
 
 PROPERTIES = {
     "C02": {
@@ -45,7 +45,7 @@ PROPERTIES = {
         ],
     },
     "C03": {
-        "modules": C05_MODULES + ["contracts.c08_temporaries", "contracts.c08_cleanup", "contracts.c03_lowering", "contracts.c03_condselect", "contracts.c04_reset", "contracts.c04_wrappers", "contracts.c02_assembler", "contracts.c13_types", "contracts.c06_stmts", "contracts.c02_frontend", "contracts.c03_decl", "contracts.c03_refvisit", "contracts.c13_refspec", "contracts.c03_out", "contracts.c10_frontend", "contracts.c03_match", "contracts.c02_replace", "contracts.c03_for", "contracts.c13_alias", "contracts.c03_with"],
+        "modules": C05_MODULES + ["contracts.c08_temporaries", "contracts.c08_cleanup", "contracts.c03_lowering", "contracts.c03_condselect", "contracts.c04_reset", "contracts.c04_wrappers", "contracts.c02_assembler", "contracts.c13_types", "contracts.c06_stmts", "contracts.c02_frontend", "contracts.c03_decl", "contracts.c03_refvisit", "contracts.c13_refspec", "contracts.c03_out", "contracts.c10_frontend", "contracts.c03_match", "contracts.c02_replace", "contracts.c03_for", "contracts.c13_alias", "contracts.c03_with", "contracts.c03_if"],
         "level": "proof",
         "explanation": "the statement is decided per lowering step, each proved from the real source: (1) the setter replacements of Signal/Variable/Temporary (<<=, .next, ^=, .push, @=, .value) accept exactly the documented target kinds and produce the assignment mode of the operator (C05 setter contracts); (2) IrGenerator._apply_impl lowers an assignment to exactly one SignalAssignment / SignalPush / VariableAssignment per open block according to mode, target kind and context kind (temporaries: immediate in sequential, continuous in concurrent contexts); (3) after an if/else execution continues in exactly the end blocks of both branches (25 x 2 arrangements of how branches end, incl. returns and state transitions), the If node being placed before its branches; (4) ir.Sequential._pushed_resettable_signals gives every pushed root -- also noreset roots and roots pushed only through a slice -- its default at the start of each step (reset_pushed), per event for arbitrary prior sets; (5) the process bodies built by std.sequential execute reset_pushed and then the user step exactly when trigger and step condition hold; (6) cleanup_bool_cast only replaces intermediates whose source is an intermediate, so a bool() taken before a later variable update keeps the old value.",
         "assumptions": COMMON_ASSUME + [
@@ -218,7 +218,7 @@ PROPERTIES = {
         ],
     },
     "C07": {
-        "modules": ["contracts.core_models", "contracts.c13_types", "contracts.c07_drivers", "contracts.c07_always", "contracts.c12_instances", "contracts.c03_refvisit", "contracts.c07_scopes"],
+        "modules": ["contracts.core_models", "contracts.c13_types", "contracts.c07_drivers", "contracts.c07_always", "contracts.c12_instances", "contracts.c03_refvisit", "contracts.c07_scopes", "contracts.c06_names"],
         "level": "proof",
         "explanation": "the usage check of ir.EntityTemplate.__init__ is proved against a per-event contract stated for ARBITRARY ghost maps (writer / user per root): a write or push to an input port, a second writer (context or instance output, in either order, slices and views through their root), or a variable / intermediate used by a second context is rejected, otherwise the maps are updated for exactly that root; the instance loop treats every output port (also two outputs of the same instance) as a driver. By induction on the event stream a normal return implies one driver per root. Known findings: the always-block of a sequential context is not a separate driver.",
         "assumptions": COMMON_ASSUME + [
@@ -226,14 +226,14 @@ PROPERTIES = {
             "every IR statement reports all objects it writes / reads through visit_objects: decided class by class by the mechanical enumeration contracts.c07_visit.visit_completeness (real constructors, marker objects, report + replace); Event / EventGroup / Statemachine / Sequential are covered through their parts only",
             "NOT decided: driver sets recomputed from the emitted text; placement of inline entities by the tracer; VhdlScope.declare's sibling-scope rule and ConvertInstance.apply's concurrent-context rules have no contract yet",
         ],
-        "extra": ["contracts.c07_visit.visit_completeness", "contracts.c07_visit.block_walks"],
+        "extra": ["contracts.c07_visit.visit_completeness", "contracts.c07_visit.block_walks", "contracts.c07_extra.alias_scopes"],
         "canaries": [
             {"name": "push-is-a-write", "contract": "cohdl._core._ir._repr:EntityTemplate.__init__", "case": "ctx-event:signal:PUSH", "file": "cohdl/_core/_ir/_repr.py",
              "old": "            if access is AccessFlags.WRITE or access is AccessFlags.PUSH:\n                if isinstance(obj, Port) and obj.is_input():", "new": "            if access is AccessFlags.WRITE:\n                if isinstance(obj, Port) and obj.is_input():"},
         ],
     },
     "C08": {
-        "modules": ["contracts.core_models", "contracts.c08_temporaries", "contracts.c08_cleanup", "contracts.c03_refvisit", "contracts.c12_actuals", "contracts.c02_assembler"],
+        "modules": ["contracts.core_models", "contracts.c08_temporaries", "contracts.c08_cleanup", "contracts.c03_refvisit", "contracts.c12_actuals", "contracts.c02_assembler", "contracts.c07_always", "contracts.c03_if"],
         "level": "proof",
         "explanation": "the definite-assignment analysis of compiler-generated intermediates (detect_uninitialized_temporaries / search_invalid_temporaries) is proved sound against the textbook definite-assignment semantics of if / case (with and without default) / sequence by structural induction: sidecar loop invariants for the statement loop and the case-branch loop, the function's own contract as induction hypothesis for recursive calls, sets of object identities as z3 sets; every read (direct or through a reference path) is shown to reach the check; cleanup_unused is proved to remove only assignments whose root is read nowhere; StatemachineContext._check_temporaries is proved to accept a state only if the first access to every intermediate is a write",
         "assumptions": COMMON_ASSUME + [
@@ -308,7 +308,7 @@ PROPERTIES = {
         ],
     },
     "C09": {
-        "modules": C05_MODULES + ["contracts.c02_replace", "contracts.c02_frontend", "contracts.c13_types", "contracts.c13_views"],
+        "modules": C05_MODULES + ["contracts.c02_replace", "contracts.c02_frontend", "contracts.c13_types", "contracts.c13_views", "contracts.c02_ops", "contracts.c09_tqparts"],
         "level": "proof",
         "explanation": "every arithmetic / shift / comparison / conversion method of Unsigned, Signed, Integer and cohdl.op.truncdiv/rem is proved equal (kind, width, value; rejections) to the documented operator semantics for all widths and values, from the real source; bit-level primitives are assumed and checked by bounded native enumeration",
         "assumptions": COMMON_ASSUME + BITLEVEL_ASSUME + VHDL_ASSUME + [
